@@ -245,7 +245,7 @@ func isRecordDelete(p *Prog, info *types.Info, call *ast.CallExpr) bool {
 		}
 		return false
 	}
-	return callee.Name() == "deletePodResource"
+	return fnName(callee) == "deletePodResource"
 }
 
 // R3: the store writes disk first, memory second, reloads everything on open and never disables fsync.
